@@ -233,6 +233,46 @@ pub fn nesting_texts() -> Vec<String> {
             }
         }
     }
+    // more families of deep nesting: a prefix per level, an inner primary, a suffix per level that
+    // may hold an operator, further operands and an action (work that is repeated per level - a
+    // scratch compilation, a second parse - explodes only for its own shape)
+    for levels in [24usize, 32, 48] {
+        for prefix in ["( ", "! ( ", "( ! ", "-true ( ", "-true -o ( "] {
+            for suffix in [" , -false )", " -o -true ) -quit", " -o -true ) -print", " , -true ) -fprint f", " ) -o -name x", " -a -uid 1 ) -print0", " -false ) , -true", " -o -true ) -printf %p"] {
+                let t = format!("{}-true{}", prefix.repeat(levels), suffix.repeat(levels));
+                out.push(t);
+            }
+        }
+    }
+    // a documented format element repeated many times before a tail that is no directive (a
+    // pre-pass that re-reads the rest at every element)
+    for e in ["\\012", "\\0", "\\101", "%p", "%%", "%Ak", "%{fid}", "\\\\", "\\n", "ab"] {
+        for n in [35usize, 48, 200] {
+            for tail in ["%z", "%", "\\", "%{", "%A", ""] {
+                out.push(format!("-printf '{}{tail}'", e.repeat(n)));
+                out.push(format!("-fprintf f '{}{tail}' -print", e.repeat(n)));
+            }
+        }
+    }
+    // an error followed by a long non-ASCII rest (previews and excerpts of the unread input)
+    for bad in ["-uid 12x", "-perm 0777x", "-bogus", "-size 5q", "( -name a -o", "-printf %q"] {
+        for n in [30usize, 62, 126, 254, 510, 1022, 1900] {
+            for shift in 0..4usize {
+                for mb in ["é", "日", "😀"] {
+                    out.push(format!("{bad} -name {}{}", "a".repeat(shift), mb.repeat(n)));
+                    out.push(format!("( -name \"{}{}\" {bad}", "a".repeat(shift), mb.repeat(n / 8 + 2)));
+                }
+            }
+        }
+    }
+    // every small number of distinct patterns before a stdout or file printer of framed mode
+    for m in 0..=40usize {
+        let names: Vec<String> = (0..m).map(|i| format!("-name p{i}")).collect();
+        let head = if m == 0 { String::new() } else { format!("( {} ) ", names.join(" -o ")) };
+        for tail in ["-print0", "-fprint f -print", "-printf %p -fprint0 g"] {
+            out.push(format!("{head}{tail}"));
+        }
+    }
     out.push("-name ".to_string() + &"x".repeat(4000));
     out.push("-printf '".to_string() + &"%p".repeat(2000) + "'");
     out.push("-true ".repeat(680));
